@@ -125,6 +125,55 @@ Fixpoint trace (t : tracker) (universe : list str) (ops : list str) : list (opti
                  end
   end.
 
+(* ---------- the tracker's other entry points and options ----------
+   AddSymbol with a types.Name whose Path differs from its Package (the key is the Path, the alias is
+   made from the Package), and AddType of a type that the tracker's IsInvalidType rejects (nothing
+   is imported; unless the type is a builtin the package NAME is reserved so that no package is
+   imported under it).  add_symbol is the case TSym pkg []. *)
+Inductive top := TSym (pkg path : str) | TInvalid (pkg : str) (builtin : bool).
+Definition top_key (pkg path : str) : str := match path with [] => pkg | _ => path end.
+Definition add_op (t : tracker) (o : top) : option tracker :=
+  match o with
+  | TSym pkg path =>
+      if str_eqb (localpkg t) pkg then Some t else
+      match pkg with [] => Some t | _ =>
+      match lookup (top_key pkg path) (p2n t) with
+      | Some _ => Some t
+      | None => match local_name t pkg with
+                | None => None
+                | Some name => Some {| p2n := set (top_key pkg path) name (p2n t); n2p := set name (top_key pkg path) (n2p t);
+                                       localpkg := localpkg t; ver2 := ver2 t |}
+                end
+      end end
+  | TInvalid pkg builtin =>
+      if str_eqb (localpkg t) pkg then Some t else
+      if builtin then Some t else
+      match lookup pkg (n2p t) with
+      | Some _ => Some t
+      | None => Some {| p2n := p2n t; n2p := set pkg [] (n2p t); localpkg := localpkg t; ver2 := ver2 t |}
+      end
+  end.
+Fixpoint run_ops (t : tracker) (ops : list top) : option tracker :=
+  match ops with
+  | [] => Some t
+  | o :: ops' => match add_op t o with Some t' => run_ops t' ops' | None => None end
+  end.
+(* what is observed after each step: LocalNameOf of every key of the case, PathOf of every alias and
+   of every extra name (the package names of the invalid types), ImportLines *)
+Definition dump_ops (t : tracker) (universe extra : list str) : dump :=
+  let names := map (local_name_of t) universe in
+  {| d_names := names;
+     d_pathof := map (fun a => (a, path_of t a)) (filter (fun a => negb (str_eqb a [])) names ++ extra);
+     d_lines := import_lines t |}.
+Fixpoint trace_ops (t : tracker) (universe extra : list str) (ops : list top) : list (option dump) :=
+  match ops with
+  | [] => []
+  | o :: ops' => match add_op t o with
+                 | Some t' => Some (dump_ops t' universe extra) :: trace_ops t' universe extra ops'
+                 | None => [None]
+                 end
+  end.
+
 (* P_check on any trace (the implementation's): the clauses of C07 *)
 Definition tracked_expected (local : str) (added : list str) (p : str) : bool :=
   negb (str_eqb p local) && negb (str_eqb p []) && mem_str p added.
@@ -219,4 +268,24 @@ Definition run_pcheck_trace (inp : sexp) : option sexp :=
                 | Some (v2, local, ops), Some tr =>
                     Some (ebool (check_trace is_letter_x is_digit_x v2 local (universe_of local ops) [] ops None tr))
                 | _, _ => None end
+  | _ => None end.
+
+(* sequences of general operations: (v, local, ops) with op = (sym pkg path) | (invalid pkg builtin?) *)
+Definition d_top : dec top := fun x =>
+  match x with
+  | L [A tg; A a; b] =>
+      if str_eqb tg (s "sym") then match b with A bb => Some (TSym a bb) | _ => None end
+      else if str_eqb tg (s "invalid") then option_map (TInvalid a) (dbool b) else None
+  | _ => None end.
+Definition keys_of_ops (local : str) (ops : list top) : list str :=
+  dedup (flat_map (fun o => match o with TSym pkg path => [top_key pkg path] | TInvalid _ _ => [] end) ops ++ [local]).
+Definition extra_of_ops (ops : list top) : list str :=
+  dedup (flat_map (fun o => match o with TInvalid pkg _ => [pkg] | TSym _ _ => [] end) ops).
+Definition run_trace_ops (inp : sexp) : option sexp :=
+  match inp with
+  | L [v; l; ops] =>
+      match dnum v, dstr l, dlist d_top ops with
+      | Some v, Some l, Some ops =>
+          Some (elist e_dump (trace_ops is_letter_x is_digit_x itoa_dec (init (N.eqb v 2) l) (keys_of_ops l ops) (extra_of_ops ops) ops))
+      | _, _, _ => None end
   | _ => None end.
